@@ -46,6 +46,9 @@ CHECKS = {
     "C16": ("every tape of the fault-free / bounded-fault / cancel populations executed over NativeFilestore and over an in-memory "
             "filestore: host file-system entry points audited during every handler API call, traces of the two executions "
             "compared, host sandbox compared before / after the in-memory run", "5 C16", "syscall audit + twin-run differential"),
+    "C17": ("operation histories on the real NativeFilestore in a tmpfs sandbox judged after every operation against a dict-based "
+            "file-system model (status code / data / exception, whole tree and contents); separate population with OSErrors "
+            "injected at the k-th host access of an operation: never success, tree unchanged", "5 C17", "refinement vs FsModel + storage fault injection"),
     "C18": ("shadow IntervalSet judged on every LostSegmentTracker operation the destination handler issues under simulated arrival "
             "histories and fault schedules (grid, bounded-fault, chaos, synthetic-peer populations); only operations inside the "
             "property's preconditions are judged; the exhaustive-for-small-N part of the quantifier is NOT reached (DESIGN 6)", "5 C18, 6", "in-situ refinement vs shadow IntervalSet"),
